@@ -64,8 +64,9 @@ func (t *T) ok4(c byte) {
 
 func badGo(a int) int      { go ok1(a, a); return a }
 func badDefer(a int) int   { defer ok1(a, a); return a }
-func badFor(a int) int     { for i := 0; i < a; i++ { a-- }; return a }
-func badWhile(a int) int   { for a > 0 { a-- }; return a }
+func ok5(a int) int     { for i := 0; i < a; i++ { a-- }; return a }
+func ok6(a int) int   { for a > 0 { a-- }; return a }
+func badForever(a int) int { for { a-- }; return a }
 func badShadow(a int) int  { if a > 0 { a := 1; return a }; return a }
 func badFall(a int) int    { switch a { case 1: a = 2; fallthrough; case 2: a = 3 }; return a }
 func badCall(a int) int    { return ok1(a, a) }
@@ -94,7 +95,7 @@ func TestBodySubset(t *testing.T) {
 	Repo = dir
 	defer func() { Repo = old }()
 
-	for _, name := range []string{"ok1", "ok2", "ok3"} {
+	for _, name := range []string{"ok1", "ok2", "ok3", "ok5", "ok6"} {
 		out := GenBody(&FnSpec{Dir: "util", Name: name, Lean: name})
 		if strings.Contains(out, "unsupported_") {
 			t.Errorf("%s: inside the subset but rendered with an unsupported marker:\n%s", name, out)
@@ -108,7 +109,7 @@ func TestBodySubset(t *testing.T) {
 	if dump := os.Getenv("GOBODY_DUMP"); dump != "" {
 		// for a manual `lean` run over the in-subset renderings
 		f := &BodyFile{GeneratedBy: "gobody_test.go", Imports: []string{"ScrapliModel.Bytes"}, Namespace: "Scrapli.Gen.Bodies.Fixture",
-			Fns: []*FnSpec{{Dir: "util", Name: "ok1", Lean: "ok1"}, {Dir: "util", Name: "ok2", Lean: "ok2"}, {Dir: "util", Name: "ok3", Lean: "ok3"},
+			Fns: []*FnSpec{{Dir: "util", Name: "ok1", Lean: "ok1"}, {Dir: "util", Name: "ok2", Lean: "ok2"}, {Dir: "util", Name: "ok3", Lean: "ok3"}, {Dir: "util", Name: "ok5", Lean: "ok5"}, {Dir: "util", Name: "ok6", Lean: "ok6"},
 				{Dir: "util", Recv: "T", Name: "ok4", Lean: "ok4",
 					State: []StateVar{{Key: "recv.buf", Lean: "buf", Ty: "bytes"}, {Key: "recv.n", Lean: "cnt", Ty: "int"}}}}}
 		_ = os.WriteFile(dump, []byte(GenBodies(f)), 0o644)
@@ -120,7 +121,7 @@ func TestBodySubset(t *testing.T) {
 			t.Errorf("ok2: missing %q in\n%s", want, out)
 		}
 	}
-	for _, name := range []string{"badGo", "badDefer", "badFor", "badWhile", "badShadow", "badFall", "badCall", "badDiv",
+	for _, name := range []string{"badGo", "badDefer", "badForever", "badShadow", "badFall", "badCall", "badDiv",
 		"badMap", "badFloat", "badClosure", "badLabel", "badSlice3", "badField", "badNamed", "badVariadic", "doesNotExist"} {
 		out := GenBody(&FnSpec{Dir: "util", Name: name, Lean: name})
 		if !strings.Contains(out, "unsupported_") {
